@@ -22,7 +22,16 @@ deriving DecidableEq, Repr, Inhabited
 
 def indexTy : Ty := ⟨"IndexType", "index"⟩
 
-abbrev OpCode := String
+/-- an operation offered by a choose op: `cls` is the operation name (what `ChooseOp.insert_operations`
+compares; it determines the Python class, which is what `decode_abstract_graph` compares), `attr` the printed
+properties / attributes that distinguish operations of one class (`slt` of an `arith.cmpi`, the value of an
+`arith.constant`; `""` for an operation without any). The semantics may depend on both. -/
+structure OpCode where
+  cls : String
+  attr : String
+deriving DecidableEq, Repr, Inhabited
+
+instance : Coe String OpCode := ⟨fun s => ⟨s, ""⟩⟩
 
 inductive Src where
   | arg (i : Nat)
@@ -222,10 +231,16 @@ def checkTys : List Ty → List Ty → Except Err Unit
   | x :: xs, y :: ys => if x.cls = y.cls then checkTys xs ys else .error .assertion
   | _, _ => .error .valueError
 
-/-- `ChooseOp.insert_operations`: append the operations whose *name* is not present yet -/
+/-- `ChooseOp.insert_operations`: append the operations whose *name* is not present yet (attributes are NOT
+compared: an operation of a class that is present with other attributes is silently dropped — finding DC20a).
+The real code rebuilds an appended operation as `type(operation)(*block.args)`, which raises `TypeError` for
+an operation that needs attributes; no generated history reaches that (every attributed class of the
+generators is the only class of its type signature), so it is not modelled. -/
+def hasClass (cur : List OpCode) (c : String) : Bool := cur.any fun x => x.cls == c
+
 def insertOps (cur : List OpCode) : List OpCode → List OpCode
   | [] => cur
-  | o :: r => insertOps (if cur.contains o then cur else cur ++ [o]) r
+  | o :: r => insertOps (if hasClass cur o.cls then cur else cur ++ [o]) r
 
 def mapExcept {α β} (f : α → Except Err β) : List α → Except Err (List β)
   | [] => .ok []
@@ -322,9 +337,10 @@ inductive Pre where
   | muxP (s : Nat)
 deriving DecidableEq, Repr, Inhabited
 
+/-- first offered operation of the same CLASS as `t` (`type(target_operation) is type(operation)`) -/
 def idxOf (t : OpCode) : List OpCode → Nat → Option Nat
   | [], _ => none
-  | o :: r, p => if o = t then some p else idxOf t r (p + 1)
+  | o :: r, p => if o.cls = t.cls then some p else idxOf t r (p + 1)
 
 /-- the local decision for switch number `s` -/
 def localChoice (A K : PE) (s : Nat) : SwUse → Except Err Pre
@@ -521,7 +537,10 @@ def srcMuxOk (A : PE) : Src → Bool
   | .mux s l r => decide (A.switches[s]? = some .mux) && srcMuxOk A l && srcMuxOk A r
   | _ => true
 
-def nodeOk (A : PE) (n : Node) : Bool := !n.ops.isEmpty && n.operands.all (srcMuxOk A)
+/-- no two DIFFERENT operations of one class (what `insert_operations` maintains; decoding picks by class) -/
+def classFun (l : List OpCode) : Bool := l.all fun o => l.all fun o' => o.cls != o'.cls || o == o'
+
+def nodeOk (A : PE) (n : Node) : Bool := !n.ops.isEmpty && n.operands.all (srcMuxOk A) && classFun n.ops
 
 def nodeSwOk (A : PE) (j : Nat) : Bool :=
   match A.nodes[j]? with
@@ -563,6 +582,9 @@ def peFromOperations : List (OpCode × List Ty × Ty) → Except Err PE
     | .ok () => .ok { argTys := tys0,
                       nodes := [⟨"0", n0 :: r.map (·.1), (List.range tys0.length).map Src.arg, 0, res0⟩],
                       yld := .node 0, switches := [.choose 0] }
+
+/-- all operations of all choose ops of a list of graphs -/
+def allOps (gs : List PE) : List OpCode := gs.flatMap fun g => g.nodes.flatMap (·.ops)
 
 /-- every choose switch has its choose op (the switch block argument has a user) -/
 def swTargetsOk (A : PE) : Bool :=
